@@ -23,7 +23,7 @@ GEN = ["qsshift"]
 LEAN = ["Ymq.Props.C12"]
 AUDIT = "Ymq.Audit.C12"
 THEOREMS = ["Ymq.C12." + t for t in (
-    "siqs_identity siqs_identity_model eval_eq_polyVal min_trick gray_step roots_inv roots_walk poly_exact roots_exact hensel_lift mpqs_identity prepare_prime_exact qs_roots_exact lgblock_shift").split()]
+    "siqs_identity siqs_identity_model eval_eq_polyVal siqs_B_sq min_trick gray_step roots_inv roots_walk poly_exact roots_exact hensel_lift mpqs_identity prepare_prime_exact qs_roots_exact lgblock_shift").split()]
 HYPOTHESES = []
 PROFILES = ["release", "chk"]
 TIMEOUT = 60.0
@@ -377,7 +377,7 @@ def siqs_cases(rng, tier, scale):
     maxbits = 200 if tier == "quick" else 400
     sizes = [24, 32, 40, 48, 56, 64, 72, 80, 96, 110, 128, 150, 170, 200] + ([230, 260, 300, 330, 360, 400] if maxbits > 200 else [])
     for cls in (1, 3, 5, 7):
-        for j in range(7 * scale):
+        for j in range(14 * scale):
             bits = sizes[(j * 5 + cls) % len(sizes)] if j < len(sizes) else rng.choice(sizes)
             n = semiprime(rng, bits, cls)
             k = rng.choice(MULTS) if j % 3 == 2 else 1
@@ -442,7 +442,7 @@ def mpqs_cases(rng, tier, scale):
     maxbits = 200 if tier == "quick" else 400
     # D around the value the real code would choose
     for cls in (1, 3, 5, 7):
-        for j in range(8 * scale):
+        for j in range(5 * scale):
             bits = min(maxbits, rng.choice([40, 56, 64, 80, 96, 128, 160, 200, 256, 320, 400]))
             n = semiprime(rng, bits, cls)
             k = rng.choice(MULTS[:9]) if j % 3 == 2 else 1
@@ -454,7 +454,7 @@ def mpqs_cases(rng, tier, scale):
                 yield Case(f"mpqs_poly {n} {k} {fbs} {mm} {d}", k=False, tag=f"k{k}")
     # tiny n, D inside the factor base: C of either sign
     small_d = [p for p in SMALL_PRIMES if p % 4 == 3] + d_primes_3mod4(200, 10)
-    for _ in range(40 * scale):
+    for _ in range(25 * scale):
         bits = rng.choice([17, 18, 20, 22, 24, 27, 30, 34, 40])
         n = semiprime(rng, bits, rng.choice([1, 3, 5, 7]))
         k = rng.choice([1, 1, 3, 5, 2])
@@ -468,8 +468,8 @@ def mpqs_cases(rng, tier, scale):
     for d in pseudo_square_ds():
         found = 0
         for _ in range(400):
-            n = semiprime(rng, rng.choice([40, 48, 64, 90]), rng.choice([1, 3, 5, 7]))
-            if math.gcd(n, d) == 1:
+            n = semiprime(rng, rng.choice([44, 48, 64, 90]), rng.choice([1, 3, 5, 7]))
+            if math.gcd(n, d) == 1 and d * d < n:
                 r = pow(n, (d + 1) // 4, d)
                 if (r * r - n) % d == 0:
                     yield Case(f"mpqs_poly {n} 1 {rng.choice([40, 200])} 32768 {d}", k=False, tag="pseudo-square")
@@ -509,7 +509,7 @@ def qs_cases(rng, tier, scale):
 
 
 def cases(tier, rng, extended=False):
-    scale = 1 if tier == "quick" else 6
+    scale = 4 if tier == "quick" else 16
     if extended:
         scale *= 4
     yield from siqs_cases(rng, tier, scale)
